@@ -303,6 +303,13 @@ template<class T> static std::string do_rt(std::string const &text)
 		std::string st="1";
 		size_t jl=jlog.size();
 		try { a3 & dirty; if(!IO<T>::eq(orig,dirty) || !a3.eof()) st="0"; } catch(...) { st="threw"; }
+		// one archive object used again: reset() and str() must rewind; assignment must carry position and mode
+		try {
+			a3.reset(); T again=T(); a3 >> again; if(!IO<T>::eq(orig,again) || !a3.eof()) st="0:reset";
+			a3.str(bytes); T third=T(); a3 >> third; if(!IO<T>::eq(orig,third) || !a3.eof()) st="0:str";
+			cppcms::archive a4; a4=a2; a4.mode(cppcms::archive::load_from_archive); T fourth=T(); a4 & fourth;
+			if(!IO<T>::eq(orig,fourth) || !a4.eof()) st="0:assign";
+		} catch(...) { st="threw:reuse"; }
 		jlog.resize(jl,std::make_pair(std::string(),std::string()));
 		r+=" eqd="+st;
 	}
